@@ -510,6 +510,68 @@ def run_nested_adoption(ctx, i, rng):
     ctx.check(shapes(up) == shapes(ul) and close(up, ul), 'apply:updates:nested_adopted_attributes', lambda: dict(case=desc))
 
 
+def run_jit_process_history(ctx, i, rng):
+  """Random draws made after a jitted call are a function of the program and the seeds - not of what the same jitted class was used
+  for earlier in the process: another jitted method called before, or the same method traced before for another input shape whose
+  number of draws differs."""
+  import jax
+  import jax.numpy as jnp
+  import flax.linen as nn
+  kind = ['two_methods', 'shape_dependent_draws', 'static_arg_draws'][i % 3]
+  na = 1 + (i // 3) % 3          # draws made by the "earlier" use
+  desc = dict(kind=kind, earlier_draws=na)
+  with ctx.case('jit_process_history', i, desc, nontrivial=True):
+    def make():
+      class M(nn.Module):
+        def a(self, x):
+          for _ in range(na):
+            x = x + jax.random.normal(self.make_rng('dropout'), x.shape)
+          return x
+
+        def b(self, x):
+          return x * 2
+
+        def c(self, x, n):
+          for _ in range(n):
+            x = x + jax.random.normal(self.make_rng('dropout'), x.shape)
+          return x
+
+        @nn.compact
+        def __call__(self, x, which):
+          if which in ('a', 'b'):
+            x = self.a(x) if which == 'a' else self.b(x)
+          elif which[0] == 'shape':
+            x = self.c_shape(x)
+          else:
+            x = self.c(x, which[1])
+          return x, jax.random.normal(self.make_rng('dropout'), (2,))
+
+        def c_shape(self, x):
+          for _ in range(x.shape[0]):
+            x = x + jax.random.normal(self.make_rng('dropout'), x.shape)
+          return x
+      return nn.jit(M, methods={'a': {}, 'b': {}, 'c_shape': {}, 'c': dict(static_argnums=(2,))})
+
+    rngs = {'dropout': jax.random.key(200 + i)}
+    x2 = jnp.ones((2,))
+    if kind == 'two_methods':
+      first, second, xa, xb = 'a', 'b', x2, x2
+    elif kind == 'shape_dependent_draws':
+      first, second, xa, xb = ('shape',), ('shape',), jnp.ones((na + 1,)), x2
+    else:
+      first, second, xa, xb = ('static', na + 2), ('static', 1), x2, x2
+    J1 = make()
+    alone = J1().apply({}, xb, second, rngs=rngs)
+    J2 = make()
+    J2().apply({}, xa, first, rngs=rngs)                 # the earlier use
+    after = J2().apply({}, xb, second, rngs=rngs)
+    again = J2().apply({}, xb, second, rngs=rngs)        # and once more: a cache hit now
+    ctx.op('nn.jit(methods) used twice in one process')
+    ctx.check(close(alone, after), 'rng:jit_draws_depend_on_earlier_calls', lambda: dict(case=desc, alone=np.asarray(alone[1]).tolist(), after=np.asarray(after[1]).tolist()))
+    ctx.check(close(alone, again), 'rng:jit_draws_depend_on_earlier_calls', lambda: dict(case=desc, which='cache hit', alone=np.asarray(alone[1]).tolist(), again=np.asarray(again[1]).tolist()))
+    # and against the plain class (the draw after the region: the jitted region consumed as many counts as the plain method)
+
+
 def run_history(ctx, i, rng):
   """Stale-trace probe: one lifted instance is called repeatedly while mutable / variable structure change; a sibling instance with
   a different attribute must not reuse the trace."""
@@ -946,6 +1008,8 @@ def run(ctx):
   ctx.event('kinds_covered', len(KINDS))
   for i in ctx.indices(24 if ctx.tier == 'quick' else 160, 'rng'):
     run_rng(ctx, i, ctx.rng('rng', i))
+  for i in ctx.indices(18 if ctx.tier == 'quick' else 54, 'jit_process_history'):
+    run_jit_process_history(ctx, i, ctx.rng('jit_process_history', i))
   for i in ctx.indices(24 if ctx.tier == 'quick' else 48, 'nested_adoption'):
     run_nested_adoption(ctx, i, ctx.rng('nested_adoption', i))
   for i in ctx.indices(48 if ctx.tier == 'quick' else 96, 'cond_rng'):
